@@ -361,7 +361,7 @@ impl Pair {
 }
 
 /// Systematic non-initial states, each built by a fixed prefix history (also checked in lock-step).
-pub const NUM_STARTS: usize = 15;
+pub const NUM_STARTS: usize = 17;
 
 fn start_state(k: usize) -> Result<Pair, String> {
     let mut p = Pair::new();
@@ -450,6 +450,20 @@ fn start_state(k: usize) -> Result<Pair, String> {
             p.observe()?;
             p.apply(Op::Exit)?;
             p.apply(Op::Exit)?;
+        }
+        // the other constructor: a table built through `Default` is a table like any other
+        // (built-ins present from the start, ids counted from the same number)
+        15 => {
+            p.imp = SymbolTable::default();
+            p.sync_ids();
+            p.observe()?;
+        }
+        16 => {
+            p.imp = SymbolTable::default();
+            p.sync_ids();
+            p.observe()?;
+            p.apply(Op::EnterLocal)?;
+            p.apply(Op::BindAInt)?;
         }
         _ => return Err("no such start state".into()),
     }
